@@ -2,6 +2,7 @@ import IndicatifModel.Proofs.MultiOrder
 import IndicatifModel.Proofs.MultiSpec
 import Batteries.Data.List.Perm
 import IndicatifModel.Proofs.Rows
+import IndicatifModel.Proofs.GenBridgeMulti
 /-!
 # C02 — ordering level: slot bookkeeping of `MultiState` for every history of `insert*`/`remove`
 
@@ -168,6 +169,120 @@ theorem C02_history_wf (t : TermTarget) (ops : List SlotOp) :
     | cons op ops ih => intro m h; exact ih _ (step m op h)
   have hw := key ops _ (C02_init_wf t)
   exact ⟨hw, C02_len_eq _ hw⟩
+
+/-! ## The source as translated (`tools/rs2lean.py`, regenerated on every run) -/
+
+theorem free_len_le (m : Multi) (hw : WF m) : m.free.length ≤ m.members.length := by
+  have h1 : m.free ⊆ List.range m.members.length := fun i hi => List.mem_range.2 (hw.free_lt i hi)
+  have l1 := (List.subperm_of_subset hw.free_nodup h1).length_le
+  simpa using l1
+
+/-- **`MultiState::insert` of the source is the model's `insert`** on every well-formed state: it hands out the same
+slot, leaves the same `members`/`free_set`/`ordering`, panics (anchor `unwrap`) exactly when the model does, and none of
+its other panic sites — `members[idx]` out of bounds, `Vec::insert` past the end, `self.len()` underflow,
+`assert_eq!(self.len(), self.ordering.len())` — can be reached -/
+theorem C02_source_insert (m : Multi) (hw : WF m) (hlen : m.ordering.length < 2 ^ 64) (loc : InsertLoc) :
+    Generated.MultiSlots.insert ({} : Member) (GenBridge.slots m) (GenBridge.toGen loc)
+      = (m.insert loc).map (fun r => (r.2, GenBridge.slots r.1)) := by
+  apply GenBridge.gen_insert m loc _ hlen
+  · intro m' idx h
+    have hw' := (C02_insert_wf m hw loc m' idx h).1
+    exact ⟨free_len_le m' hw', C02_len_eq m' hw'⟩
+  · intro i hi
+    exact hw.free_lt i (List.mem_of_getLast? hi)
+
+/-- **`MultiState::remove_idx` of the source is the model's `removeIdx`** on every well-formed state and in-range slot,
+and its assertion cannot fire -/
+theorem C02_source_remove (m : Multi) (hw : WF m) (idx : Nat) (hlt : idx < m.members.length) :
+    Generated.MultiSlots.removeIdx ({} : Member) (GenBridge.slots m) idx = some ((), GenBridge.slots (m.removeIdx idx)) := by
+  have hw' := (C02_remove_wf m hw idx hlt).1
+  exact GenBridge.gen_removeIdx m idx hlt ⟨free_len_le _ hw', C02_len_eq _ hw'⟩
+
+/-- one slot operation on the translated functions; `none` = the Rust code panicked somewhere other than at the documented
+anchor `unwrap` (that case leaves the state unchanged, like `slotStep`) -/
+def sourceStep (s : Generated.MultiSlots Member) : SlotOp → Option (Generated.MultiSlots Member)
+  | .ins loc =>
+    match loc, Generated.MultiSlots.insert ({} : Member) s (GenBridge.toGen loc) with
+    | _, some (_, s') => some s'
+    | .after a, none => if a ∈ s.ordering then none else some s
+    | .before a, none => if a ∈ s.ordering then none else some s
+    | _, none => none
+  | .rem idx => if idx < s.members.length then (Generated.MultiSlots.removeIdx ({} : Member) s idx).map (·.2) else some s
+
+def sourceRun (s : Generated.MultiSlots Member) : List SlotOp → Option (Generated.MultiSlots Member)
+  | [] => some s
+  | op :: ops => match sourceStep s op with | none => none | some s' => sourceRun s' ops
+
+theorem insert_none_anchor (m : Multi) (loc : InsertLoc) (h : m.insert loc = none) :
+    (∃ a, loc = .after a ∧ a ∉ m.ordering) ∨ (∃ a, loc = .before a ∧ a ∉ m.ordering) := by
+  rw [insert_eq_place] at h
+  have ho : (takeSlot m).1.ordering = m.ordering := by unfold takeSlot; cases m.free.getLast? <;> rfl
+  unfold place at h
+  cases loc with
+  | atEnd => cases h
+  | index _ => cases h
+  | fromBack _ => cases h
+  | after a =>
+    left; refine ⟨a, rfl, ?_⟩
+    dsimp only at h; split at h
+    · cases h
+    · rename_i hn; rw [ho] at hn; exact List.idxOf?_eq_none_iff.1 hn
+  | before a =>
+    right; refine ⟨a, rfl, ?_⟩
+    dsimp only at h; split at h
+    · cases h
+    · rename_i hn; rw [ho] at hn; exact List.idxOf?_eq_none_iff.1 hn
+
+theorem sourceStep_eq (m : Multi) (hw : WF m) (hlen : m.ordering.length < 2 ^ 64) (op : SlotOp) :
+    sourceStep (GenBridge.slots m) op = some (GenBridge.slots (slotStep m op)) := by
+  cases op with
+  | ins loc =>
+    have h := C02_source_insert m hw hlen loc
+    simp only [sourceStep, slotStep]
+    cases hi : m.insert loc with
+    | some r =>
+      rw [hi] at h; simp only [Option.map] at h
+      rw [h]
+    | none =>
+      rw [hi] at h; simp only [Option.map] at h
+      rw [h]
+      rcases insert_none_anchor m loc hi with ⟨a, rfl, ha⟩ | ⟨a, rfl, ha⟩
+      · simp [GenBridge.slots, ha]
+      · simp [GenBridge.slots, ha]
+  | rem idx =>
+    simp only [sourceStep, slotStep]
+    by_cases hlt : idx < m.members.length
+    · have h1 : idx < (GenBridge.slots m).members.length := hlt
+      rw [if_pos h1, if_pos hlt, C02_source_remove m hw idx hlt]; rfl
+    · have h1 : ¬ idx < (GenBridge.slots m).members.length := hlt
+      rw [if_neg h1, if_neg hlt]
+
+/-- **every history, on the source as translated**: starting from the empty `MultiState`, any sequence of insertions
+(any location, any anchor) and removals run through the translated `MultiState::insert` / `remove_idx` never reaches a
+panic site other than the documented anchor `unwrap`, and leaves exactly the slot bookkeeping of the model — to which
+`C02_history_wf`, `C02_world_history` and the order refinement apply. (Vector lengths are assumed to stay below 2^64.) -/
+theorem C02_source_history (t : TermTarget) : ∀ (ops : List SlotOp) (m : Multi), WF m →
+    (∀ (k : Nat), ((ops.take k).foldl slotStep m).ordering.length < 2 ^ 64) →
+    sourceRun (GenBridge.slots m) ops = some (GenBridge.slots (ops.foldl slotStep m))
+  | [], m, _, _ => rfl
+  | op :: ops, m, hw, hl => by
+    have h0 : m.ordering.length < 2 ^ 64 := by simpa using hl 0
+    have hw' : WF (slotStep m op) := by
+      cases op with
+      | ins loc =>
+        simp only [slotStep]; split
+        · rename_i m' idx hi; exact (C02_insert_wf m hw loc m' idx hi).1
+        · exact hw
+      | rem idx =>
+        simp only [slotStep]; split
+        · rename_i hlt; exact (C02_remove_wf m hw idx hlt).1
+        · exact hw
+    simp only [sourceRun, sourceStep_eq m hw h0 op, List.foldl_cons]
+    exact C02_source_history t ops _ hw' (fun k => by simpa using hl (k + 1))
+
+/-- non-vacuity: a history with slot reuse and a missing anchor, run on the translated functions -/
+example : (sourceRun ⟨[], [], []⟩ [.ins .atEnd, .ins (.index 0), .rem 0, .ins (.before 1), .ins (.after 7)]).map (·.ordering) = some [0, 1] := by
+  decide
 
 /-! ## Refinement to the documented order -/
 
